@@ -194,6 +194,40 @@ def run(ctx):
             ctx.add_vm('api_gen_varpc_n', [v], outs[2 * k + 1])
         if len(ctx.violations) > 10:
             return
+    # (a') a resampling loop: ONE preallocated buffer per sample size, refilled in place with sample after sample (bootstrap / permutation
+    # buffer), pc and stdpc evaluated on it each time - every value is the estimator of the sample the buffer holds NOW
+    for N in range(2, Nmax + 1):
+        for kind in ('int', 'str'):
+            buf = np.empty(N, dtype=np.int64) if kind == 'int' else np.empty(N, dtype='<U4')
+            seen = 0
+            for k, (v, dt, order) in enumerate(entries):
+                if dt is not None or sum(v) != N or len(v) > 4:
+                    continue
+                (pdef, pq), (vdef, vq) = outs[2 * k], outs[2 * k + 1]
+                smp = np.repeat(np.arange(len(v)), np.array(v))
+                rng.shuffle(smp)
+                buf[:] = smp if kind == 'int' else ['c%d' % x for x in smp]
+                seen += 1
+                ctx.count('resampling_buffer_refills')
+                for name, fn, exp in (('pc', st.pc, pq if pdef else None), ('stdpc', st.stdpc, ('sqrt', vq) if vdef and vq >= 0 else 'skip')):
+                    if exp == 'skip':
+                        continue
+                    impl = call_impl(fn, buf)
+                    ctx.case(nontrivial_key=('buffer', name, kind, tuple(v)) if seen > 1 else None)
+                    if exp is None:
+                        ok = impl[0] == 'exc' or not np.isfinite(impl[1])
+                    elif isinstance(exp, tuple):
+                        ok = impl[0] == 'ok' and (abs(float(impl[1]) - math.sqrt(exp[1])) <= 1e-9 * max(1, math.sqrt(exp[1])) or
+                                                  (exp[1] < 1e-18 and (impl[1] != impl[1] or abs(impl[1]) < 1e-6)))
+                    else:
+                        ok = impl[0] == 'ok' and close(impl[1], exp, rel=1e-9, abs_=1e-12)
+                    if not ok:
+                        ctx.violation('property', '%s(buffer) = %s for the buffer holding a sample with counts %s (refill number %d of one '
+                                      'preallocated %s array of size %d), but the formula gives %s' % (name, impl, show(v), seen, kind, N, exp),
+                                      dict(func=name + '[refilled buffer]', counts=v, refill=seen, kind=kind, impl=str(impl), expected=str(exp)),
+                                      site='stats.%s[refilled buffer]' % name)
+            if len(ctx.violations) > 10:
+                return
     # the generator is only worth something if sums beyond the dtype actually occurred (term by term in range)
     for dt in NARROW_DTYPES[:5]:
         for order, r in ((2, 2), (3, 2), (3, 3)):
